@@ -270,12 +270,20 @@ func (n *node) ChildrenByType(match NodeType) []Node {
 		for _, nd := range n.Children() {
 			switch nd.Type() {
 			case NodeContainer, NodeLeaf, NodeLeafList, NodeList:
+				// The implicit case belongs to the module its node is written
+				// in (or was copied into by a uses): for a node added by an
+				// augment of another module that is not the module of the choice.
+				tree, useTree := n.tree, n.useTree
+				if c, ok := nd.(*node); ok && c.tree != nil {
+					tree, useTree = c.tree, c.useTree
+				}
 				newnd := newNodeByType(NodeCase,
-					n.tree,
+					tree,
 					item{pos: nd.position(), val: "case"},
 					nd.Name(),
 					[]Node{nd},
 					&Scope{tenv: n.tenv, genv: n.genv}, nil)
+				newnd.useTree = useTree
 				n.ReplaceChild(nd, newnd)
 			}
 		}
